@@ -106,8 +106,23 @@ def gen_config(rng):
     elif dm == 'env': cli['SD'] = str(d)
     cli['d'] = []; cli['D'] = None
     cfg['dirmode'] = rng.choice(['flag', 'env', 'flag-over-env'])
+    # directory names that are legal on disk but significant to URI / shell / SQL / glob syntax (no blank, ';', ',' or '=':
+    # those are separators of the line protocol)
+    cfg['dirname'] = rng.choice(DIRNAMES)
     cfg['cli'] = cli
     return cfg
+
+DIRNAMES = ['data', 'data', 'site#1', 'q?mode', '100%', 'a%20b', '\u00fcn\u00ef', "it's", 'a&b', 'file:x', 'x+y', '[b]*', '$HOME', 'back\\slash']
+DBFILE = 'taskchampion-sync-server.sqlite3'
+
+def dircheck(work, datadir):
+    """the data is IN the given directory: the database file is there, and nothing else appeared next to it"""
+    entries = sorted(os.listdir(work))
+    if entries != [os.path.basename(datadir)]:
+        return 'stray:' + '|'.join(e.replace(' ', '_') for e in entries)
+    if not os.path.isfile(os.path.join(datadir, DBFILE)):
+        return 'nodb:' + '|'.join(sorted(os.listdir(datadir)))
+    return 'ok'
 
 def argv_env(cfg, datadir):
     cli = cfg['cli']
@@ -205,7 +220,7 @@ def run_config(out, binp, rng, hi):
     cfg = gen_config(rng)
     base = os.environ.get('VERIF_SCRATCH', '/dev/shm')
     work = tempfile.mkdtemp(prefix='tcsc17', dir=base if os.path.isdir(base) else None)
-    datadir = os.path.join(work, 'data')
+    datadir = os.path.join(work, cfg['dirname'])
     proc = None
     try:
         argv, env = argv_env(cfg, datadir)
@@ -246,20 +261,42 @@ def run_config(out, binp, rng, hi):
         proc.send_signal(signal.SIGKILL); proc.wait()
         out.write(f"# i={k + 1} op=reopen kill=9\n")
         out.write("reopen => ok\n")
+        out.write(f"# i={k + 1} op=dircheck\ndircheck => {dircheck(work, datadir)}\n")
         proc = start(binp, argv, env)
         ok2 = wait_ports(proc, cfg['ports'])
         out.write(f"# i={k + 2} op=restart\nrestart => {'ok' if ok2 else 'failed'}\n")
-        if ok2:
+        def walk(k):
             s = Sess(out, cfg['ports'][-1])
             p = NIL
-            k += 3
             for j in range(len(chain) + 1):
                 st, h, _ = s.call(f"i={k} op=walk n={j}", 'GET', f'/v1/client/get-child-version/{p}', [('X-Client-Id', listed)])
                 if st != 200:
                     break
                 p = h.get('x-version-id', NIL)
             k += 1; s.call(f"i={k} op=gs", 'GET', '/v1/client/snapshot', [('X-Client-Id', listed)])
-            k += 1; s.call(f"i={k} op=av after-restart=1", 'POST', f'/v1/client/add-version/{latest}', [('Content-Type', HS_CT), ('X-Client-Id', listed)], b'after')
+            return s, k
+        if ok2:
+            k += 3
+            s, k = walk(k)
+            k += 1; st, h, _ = s.call(f"i={k} op=av after-restart=1", 'POST', f'/v1/client/add-version/{latest}', [('Content-Type', HS_CT), ('X-Client-Id', listed)], b'after')
+            if st == 200 and 'x-version-id' in h:
+                latest = h['x-version-id']; chain.append(latest)
+            # the data is in the directory and nowhere else: the directory, moved, serves the same history
+            proc.send_signal(signal.SIGKILL); proc.wait()
+            out.write(f"# i={k + 1} op=reopen kill=9 moved=1\nreopen => ok\n")
+            moved = os.path.join(work, 'moved-' + cfg['dirname'])
+            os.rename(datadir, moved)
+            for junk in os.listdir(work):
+                if junk != os.path.basename(moved):
+                    jp = os.path.join(work, junk)
+                    shutil.rmtree(jp, ignore_errors=True) if os.path.isdir(jp) else os.unlink(jp)
+            argv3, env3 = argv_env(cfg, moved)
+            proc = start(binp, argv3, env3)
+            ok3 = wait_ports(proc, cfg['ports'])
+            out.write(f"# i={k + 2} op=restart moved=1\nrestart => {'ok' if ok3 else 'failed'}\n")
+            if ok3:
+                k += 3
+                walk(k)
     finally:
         if proc is not None and proc.poll() is None:
             proc.kill(); proc.wait()
